@@ -8,6 +8,8 @@ import GoProbeModel.Spec.C23
 import GoProbeModel.Spec.C17
 import GoProbeModel.Spec.C12
 import GoProbeModel.Spec.C04
+import GoProbeModel.Spec.C19
+import GoProbeModel.Spec.C15
 
 /-!
 `gpjudge`: executable specs. Reads lines `<Cxx> <case fields…> => <implementation output>` and
@@ -23,5 +25,7 @@ def main : IO Unit := DriverLoop.runJudge [
   ("C23", C23.judge),
   ("C17", C17.judge),
   ("C12", C12.judge),
-  ("C04", C04.judge)
+  ("C04", C04.judge),
+  ("C19", C19.judge),
+  ("C15", C15.judge)
 ]
